@@ -22,7 +22,7 @@ CLAUSE = CLAUSE + (" (RF-DEP, path-sensitive zero-ness valuations) in demux_ts_p
                    "rewound for the next PES packet - also when the whole TS packet was already in the synchronisation buffer.")
 CLAUSE = CLAUSE + (" samples_pointer() advances a second-field row of a sequential raw frame by count[0], the size of the first field.")
 CLAUSE = CLAUSE + (" Every advance of the PES collecting cursor ts_pes_bp is paired, in the same step, with the countdown of ts_pes_todo by the same amount.")
-CLAUSE = CLAUSE + (" encode_timestamp and decode_timestamp shift each of the five PTS bytes by the same amount (same mask on byte "
+CLAUSE = CLAUSE + (" (bit provenance) every PTS bit is stored by encode_timestamp at exactly the (byte, bit) decode_timestamp takes it from (formerly: same shift per byte, same mask on byte "
                    "0); last_line follows only lines with a known position (s->line > 0).")
 CLAUSE = CLAUSE + (" The demultiplexer's own frame buffer takes every line address a frame can carry (line_offset mask x field parity).")
 NOT_DECIDED = ("PES/TS header layout, PTS encoding, size rounding to 184 and stuffing arithmetic, that demux (mux (x)) == x as values, "
@@ -626,87 +626,69 @@ def _second_field_offset(ctx, run, f):
 
 
 def _timestamp_layout(ctx, run):
-    """RF-TAB: the 33 bit PTS is spread over five header bytes (ISO 13818-1: bits 32..30, 29..22,
-    21..15, 14..7, 6..0).  encode_timestamp() of the multiplexer and decode_timestamp() of the
-    demultiplexer are two renderings of that one table: for every byte the encoder's right shift
-    equals the decoder's left shift (and the masks on byte 0 agree).  A slip on either side leaves
-    the packet well formed and corrupts only time stamps above 2^29 - none the tests use."""
+    """RF-BITS: the 33 bit PTS is spread over five header bytes (ISO 13818-1: bits 32..30, 29..22, 21..15, 14..7, 6..0).
+    encode_timestamp() of the multiplexer and decode_timestamp() of the demultiplexer are two renderings of that one
+    table.  Decided by bit provenance (zsa/bits.py): for every PTS bit the encoder places it at exactly one (byte, bit),
+    and the decoder takes that PTS bit from exactly that (byte, bit) - however the shifts and masks are written."""
+    from .. import bits
     P = ctx.prog
     enc = P.need("encode_timestamp", MUX)
     dec = P.need("decode_timestamp", DEMUX)
     run.touch(enc)
     run.touch(dec)
-
-    def shift_of(f, node, ops):
-        """(shift, mask) applied to the value on the way to/from a byte; positive = towards the low bits on the encoder side."""
-        sh, mask = None, None
-        for j in ex.walk(f, node):
-            e = f.exprs[j]
-            if e["k"] == "bin" and e["op"] in ops and ex.const(f, e["c"][1]) is not None and sh is None:
-                sh = ex.const(f, e["c"][1])
-            if e["k"] == "bin" and e["op"] == "*" and ex.const(f, e["c"][1]) == 2 and sh is None:
-                sh = -1
-            if e["k"] == "bin" and e["op"] == "&" and mask is None:
-                m = [ex.const(f, c) for c in e["c"] if ex.const(f, c) is not None]
-                if m:
-                    mask = m[0] & 0xFF
-        return sh, mask
-    E = {}
-    for bid, i in flow.all_events(enc):
-        for lhs, var, op, rhs in flow.stores(enc, i):
-            if lhs is None or rhs is None or op != "=":
-                continue
-            l = enc.exprs[ex.skip(enc, lhs)]
-            if l["k"] == "idx" and ex.const(enc, l["c"][1]) is not None and enc.exprs[ex.skip(enc, l["c"][0])].get("name") == enc.params[0]["name"]:
-                E[ex.const(enc, l["c"][1])] = shift_of(enc, rhs, (">>",))
-    D = {}
-    pn = dec.params[3]["name"]
-    parent = {}
-    for i, e in enumerate(dec.exprs):
-        for c in e.get("c", []) or []:
-            if isinstance(c, int) and c >= 0:
-                parent[c] = i
-    for i, e in enumerate(dec.exprs):
-        if e["k"] == "idx" and dec.exprs[ex.skip(dec, e["c"][0])].get("name") == pn and ex.const(dec, e["c"][1]) is not None:
-            k = ex.const(dec, e["c"][1])
-            j = i
-            sh, mask = None, None
-            while j in parent:
-                j = parent[j]
-                pe = dec.exprs[j]
-                if pe["k"] == "bin" and pe["op"] == "<<" and ex.const(dec, pe["c"][1]) is not None:
-                    sh = ex.const(dec, pe["c"][1])
-                    break
-                if pe["k"] == "bin" and pe["op"] == ">>" and ex.const(dec, pe["c"][1]) is not None:
-                    sh = -ex.const(dec, pe["c"][1])
-                    break
-                if pe["k"] == "bin" and pe["op"] == "&" and mask is None:
-                    m = [ex.const(dec, c) for c in pe["c"] if ex.const(dec, c) is not None]
-                    if m:
-                        mask = m[0] & 0xFF
-                if pe["k"] in ("asg", "call", "ret", "decl"):
-                    break
-            if sh is not None:
-                D.setdefault(k, set()).add((sh, mask))
-    run.floor("time stamp bytes written by the multiplexer", len(E), 5)
-    run.floor("time stamp bytes read by the demultiplexer", len([k for k in D if k in E]), 5)
-    for k in sorted(E):
-        key = "RF-TAB:timestamp:byte-%d" % k
-        es, em = E[k]
-        ds = {s for s, m in D.get(k, ())}
-        bad = []
-        if es is None or ds != {es}:
-            bad.append("the multiplexer shifts by %s, the demultiplexer by %s" % (es, sorted(ds)))
-        if k == 0:
-            dm = {m for s, m in D.get(k, ()) if m is not None}
-            if em is None or dm != {em}:
-                bad.append("mask %s against %s" % (hex(em) if em is not None else None, [hex(x) for x in dm]))
-        if bad:
-            run.violation("RF-TAB", key, "PTS byte %d: %s - the two sides no longer describe the same bit layout: time stamps with "
-                          "different bits 29..32 are sent or read wrong while the packet stays well formed" % (k, "; ".join(bad)),
-                          "%s:%d" % (enc.file, enc.line), witness={"encoder": list(E[k]), "decoder": sorted(map(list, D.get(k, ())), key=str)})
+    bp, vp, mp = enc.params[0]["name"], enc.params[1]["name"], enc.params[2]["name"]
+    est = bits.Eval(ctx, enc, bind={mp: ("bits", bits.const_bits(0x21))}).run_true()
+    dst = bits.Eval(ctx, dec).run_true()
+    dp = dec.params[3]["name"]
+    out = dec.params[1]["name"]
+    if est is None or dst is None:
+        raise AnalysisBroken("timestamp codec: no exit state")
+    dv = dst.get(("M", "*" + out))
+    if dv is None:
+        raise AnalysisBroken("decode_timestamp: the store of *%s was not found" % out)
+    placed = {}
+    n_bytes = 0
+    for k in range(8):
+        bv = est.get(("M", "%s[%d]" % (bp, k)))
+        if bv is None:
+            continue
+        n_bytes += 1
+        for b in range(8):
+            x = bv[b]
+            if isinstance(x, tuple) and x[0] == "in" and x[1] == vp:
+                placed.setdefault(x[2], []).append((k, b))
+            elif x is None:
+                run.violation("RF-BITS", "RF-BITS:timestamp:encoder:%d.%d" % (k, b), "bit %d of time stamp byte %d is not a pure copy "
+                              "of a PTS bit or a constant (carry or overlap in encode_timestamp)" % (b, k), "%s:%d" % (enc.file, enc.line))
+    run.floor("time stamp bytes written by the multiplexer", n_bytes, 5)
+    n = 0
+    for j in range(33):
+        key = "RF-BITS:timestamp:pts.%d" % j
+        pl = placed.get(j, [])
+        x = dv[j]
+        n += 1
+        if len(pl) != 1:
+            run.violation("RF-BITS", key, "PTS bit %d is stored at %s by encode_timestamp (exactly one place expected)"
+                          % (j, pl or "no place"), "%s:%d" % (enc.file, enc.line))
+            continue
+        k, b = pl[0]
+        if x == ("in", "%s[%d]" % (dp, k), b):
+            run.holds("RF-BITS", key, "PTS bit %d <-> byte %d bit %d on both sides" % (j, k, b), "%s:%d" % (dec.file, dec.line),
+                      nontrivial=(j % 8 == 0))
+        elif x is None and getattr(dec, "inlined", None):
+            run.undecided("RF-BITS", key, "PTS bit %d: provenance lost in code inlined into decode_timestamp" % j,
+                          "%s:%d" % (dec.file, dec.line))
         else:
-            run.holds("RF-TAB", key, "byte %d: shift %d on both sides" % (k, es), "%s:%d" % (enc.file, enc.line))
+            run.violation("RF-BITS", key, "PTS bit %d: the multiplexer stores it at byte %d bit %d, the demultiplexer takes it from %s - "
+                          "the two sides no longer describe the same bit layout: time stamps are sent or read wrong while the packet "
+                          "stays well formed" % (j, k, b, bits._fmt(x)), "%s:%d" % (dec.file, dec.line),
+                          witness={"pts_bit": j, "encoder": [k, b], "decoder": bits._fmt(x)})
+    for j in range(33, 64):
+        if dv[j] != 0:
+            run.violation("RF-BITS", "RF-BITS:timestamp:pts.%d" % j, "decode_timestamp can set bit %d of the 33 bit PTS (%s)"
+                          % (j, bits._fmt(dv[j])), "%s:%d" % (dec.file, dec.line))
+            break
+    run.floor("time stamp bits compared", n, 33)
 
 
 def _last_line_under_positive(ctx, run, f):
